@@ -68,13 +68,13 @@ class _Built:
         if backend == 'array':
             assert len(parts) == 1
             self.src = A.copy()
-            self.reader = T.get_ephys_reader(self.src, sample_rate=self.sr)
+            self._make = lambda: T.get_ephys_reader(self.src, sample_rate=self.sr)
         elif backend == 'npy':
             assert len(parts) == 1
             p = os.path.join(self.dir, 'rec.npy')
             np.save(p, A)
             arg = conv(p) if layout.get('single', True) else [conv(p)]
-            self.reader = T.get_ephys_reader(arg, sample_rate=self.sr)
+            self._make = lambda: T.get_ephys_reader(arg, sample_rate=self.sr)
         elif backend == 'flat':
             off = int(layout.get('offset', 0))
             ext = layout.get('ext', '.bin')
@@ -87,7 +87,7 @@ class _Built:
                 k += s
                 paths.append(conv(p))
             arg = paths[0] if (len(paths) == 1 and layout.get('single', False)) else paths
-            self.reader = T.get_ephys_reader(arg, sample_rate=self.sr, dtype=np.dtype(dtype), n_channels=nch, offset=off)
+            self._make = lambda: T.get_ephys_reader(arg, sample_rate=self.sr, dtype=np.dtype(dtype), n_channels=nch, offset=off)
         elif backend == 'cbin':
             import mtscomp
             assert len(parts) == 1
@@ -102,12 +102,19 @@ class _Built:
             if layout.get('via', 'path') == 'reader':
                 self._mts = mtscomp.Reader(n_threads=1)
                 self._mts.open(cb, ch)
-                self.reader = T.get_ephys_reader(self._mts)
+                self._make = lambda: T.get_ephys_reader(self._mts)
             else:
+                self._make = None
                 self.reader = T.get_ephys_reader(conv(cb))
                 self._mts = getattr(self.reader, 'reader', None)
         else:
             raise AssertionError(backend)
+        if self._make is not None:
+            self.reader = self._make()
+
+    def fresh(self):
+        """A new reader object on the same files (C02: derivation cases must not share state across cases)."""
+        return self._make() if self._make is not None else self.reader
 
     def close(self):
         try:
@@ -327,18 +334,20 @@ def enumerate_cases(ctx):
     ctx.scope('index expressions per layout (exhaustive): every int in [-n,n)%s; every slice with start/stop in [-n,n] or None, '
               'step None or 1 (both on int16 layouts in thorough, else one of the two by rotation), selecting >= 1 row; every strictly increasing index list AND int64 array of length <= %s '
               '(not on cbin); x column selectors {none, slice, reversed slice, increasing list, permutation%s}'
-              % ('' if quick else ' (also numpy integer scalars on int16 layouts)', '3' if quick else 'n', '' if quick else ', ndarray permutation; on int16 layouts also negative-bound slices'))
+              % ('' if quick else ' (also numpy integer scalars on int16 layouts)', '3 (multi-file flat: n, those longer than 3 with two selectors)' if quick else 'n', '' if quick else ', ndarray permutation; on int16 layouts also negative-bound slices'))
     for li, lay in enumerate(layouts(ctx.tier)):
         n, nch, backend = sum(lay['parts']), lay['nch'], lay['backend']
         ctx.run('attributes', {'layout': lay})
         rich = (not quick) and lay['dtype'] == 'int16'     # thorough: the int16 layouts get every variant
-        rows = all_rows(n, backend, 3 if quick else 6, both_steps=rich, npint=rich)
+        multi = backend == 'flat' and len(lay['parts']) >= 2
+        rows = all_rows(n, backend, 6 if (multi or not quick) else 3, both_steps=rich, npint=rich)
         cols = all_cols(nch, with_arrays=not quick)
         if not quick and not rich:
             cols = cols[:6]
         for ri, r in enumerate(rows):
-            if quick and not (backend == 'flat' and len(lay['parts']) >= 2):
-                # single-part layouts in quick: every row with no selector + one rotating selector
+            long_list = r['k'] in ('list', 'array') and len(r['v']) > 3
+            if quick and (not multi or long_list):
+                # quick, single-part layouts and long index lists: no selector + one rotating selector
                 cs = [None, cols[1 + (ri + li) % (len(cols) - 1)]]
             else:
                 cs = cols
